@@ -37,6 +37,7 @@ var ps struct {
 	h2served   bool
 	h1sent     bool
 	h1closed   bool
+	h1refused  bool
 	rec        []byte
 	userSawTLS []bool
 	reqTLSnil  bool
@@ -219,11 +220,18 @@ func stubH2ServeConn(s *http2.Server, c net.Conn, opts *http2.ServeConnOpts) {
 }
 
 //verif:replace (*github.com/wi1dcard/fingerproxy/pkg/hack.ChannelListener).SendToChannel
-func stubSendToChannel(ln *hack.ChannelListener, c net.Conn) {
+func stubSendToChannel(ln *hack.ChannelListener, c net.Conn) bool {
 	ev("h1.Send")
 	ps.h1sent = true
 	if outcome("h1send", false) == 2 {
 		panic("panic in the HTTP/1.1 hand-off")
+	}
+	if vBool("h1.listenerClosed") {
+		// the internal HTTP/1.1 server stopped accepting (shutdown): the connection is not handed
+		// over and stays the caller's to release (D15)
+		ev("h1.SendRefused")
+		ps.h1refused = true
+		return false
 	}
 	// net/http accepts the conn, derives the connection context with ConnContext, serves
 	// requests (Request.TLS is set iff the conn's dynamic type is *tls.Conn) and finally
@@ -255,6 +263,7 @@ func stubSendToChannel(ln *hack.ChannelListener, c net.Conn) {
 		c.Close()
 		ps.h1closed = true
 	}
+	return true
 }
 
 type psCounter struct {
@@ -293,7 +302,7 @@ func psSetup(allowPanic bool, metrics bool) *Server {
 	ps.allowPanic = allowPanic
 	ps.events = nil
 	ps.incs, ps.incOK, ps.incProto = 0, "", ""
-	ps.h2served, ps.h1sent, ps.h1closed = false, false, false
+	ps.h2served, ps.h1sent, ps.h1closed, ps.h1refused = false, false, false, false
 	ps.userSawTLS = nil
 	ps.tlsConn = nil
 	ps.hsCtx = nil
